@@ -13,6 +13,20 @@ from vf.sched.proxies import CTL
 
 
 LIST_INIT = {}   # canonical list name -> initial contents (same in every run of a scenario)
+CELL_INIT = {}   # (dict name, repr(key)) -> content token right after setup()
+
+
+def _dump(gc, names):
+  out = {}
+  for name in names:
+    obj = getattr(gc, name)
+    if isinstance(obj, proxies.PDict):
+      for k, v in dict.items(obj):
+        out[(name, repr(k))] = proxies.tok(v)
+        if isinstance(v, proxies.PDict):
+          for k2, v2 in dict.items(v):
+            out[(v._pname, repr(k2))] = proxies.tok(v2)
+  return out
 
 
 def run(programs, setup, mode, schedule=(), tail=(), shared=None):
@@ -26,6 +40,8 @@ def run(programs, setup, mode, schedule=(), tail=(), shared=None):
   proxies._PLISTS.clear()
   try:
     setup()
+    CELL_INIT.clear()
+    CELL_INIT.update(_dump(gc, names))
     CTL.mode = 'off'
     CTL.tids.clear()
     CTL.logs = {i: [] for i in range(len(programs))}
@@ -62,15 +78,7 @@ def run(programs, setup, mode, schedule=(), tail=(), shared=None):
     LIST_INIT.update(proxies.canonical_list_names(CTL.logs))
     alive = [i for i, t in enumerate(threads) if t.is_alive()]
     errors = list(CTL.errors) + (['threads still alive: %r' % alive] if alive else [])
-    final = {}
-    for name in names:
-      obj = getattr(gc, name)
-      if isinstance(obj, proxies.PDict):
-        for k, v in dict.items(obj):
-          final[(name, repr(k))] = proxies.tok(v)
-          if isinstance(v, proxies.PDict):
-            for k2, v2 in dict.items(v):
-              final[(v._pname, repr(k2))] = proxies.tok(v2)
+    final = _dump(gc, names)
     return [list(CTL.logs[i]) for i in range(len(programs))], results, errors, final, names
   finally:
     undo_tap()
@@ -201,7 +209,7 @@ class Scenario:
         tries[i].add(compress([ev for ev in tr if ev.obj in shared], guard, bad))
     self.shared = shared
     self.guard = guard
-    model = bmc.Model(tries, list_init=dict(LIST_INIT))
+    model = bmc.Model(tries, init_present=dict(CELL_INIT), list_init=dict(LIST_INIT))
     return model
 
   def solve(self, max_iters=40):
